@@ -137,7 +137,7 @@ impl TransportVisitor for BoundsVisitor {
 /// Bounds sweep for one transport kind and one window size (None = no device-config capability).
 pub fn bounds_case(tkind: TKind, window: Option<usize>) -> BoundsOut {
     hal::reset();
-    let cfg: Vec<u8> = (0..window.unwrap_or(0)).map(|i| 0x40 + i as u8).collect();
+    let cfg: Vec<u8> = (0..window.unwrap_or(0)).map(|i| 0x40u8.wrapping_add(i as u8)).collect();
     let w = DWorld::new(Kind::Blk, tkind, 0, cfg);
     // The effective window of the PCI transport is a whole number of 32-bit words.
     let eff = match (tkind, window) {
